@@ -1504,6 +1504,8 @@ class Interp:
             c, expr = obj.cls.find_class_assign(attr)
             if expr is not None:
                 return self.class_attr(c, attr, expr)
+            if obj.cls.module.name.startswith('contracts'):
+                raise ShapeOutOfDate(f'the stub class {obj.cls.name} of a contract does not model attribute {attr!r}: the code uses the stubbed object in a new way')
             if not obj.fresh and self._set_by_constructor(obj.cls, attr):
                 # an input object of a contract that does not have an attribute the (current) constructor sets: the contract's
                 # input shape is out of date, not the code under verification
@@ -2040,7 +2042,7 @@ class Interp:
         a = fnode.args
         params = [p.arg for p in a.posonlyargs + a.args]
         if len(args) > len(params) and a.vararg is None:
-            self.raise_py('TypeError')
+            self._bad_call(env)
         for name, v in zip(params, args):
             env.vars[name] = v
         if a.vararg is not None:
@@ -2051,25 +2053,30 @@ class Interp:
         for i, name in enumerate(params):
             if name in env.vars and i < len(args):
                 if name in kw:
-                    self.raise_py('TypeError')
+                    self._bad_call(env)
                 continue
             if name in kw:
                 env.vars[name] = kw.pop(name)
             elif i >= first_default:
                 env.vars[name] = self.ev(defaults[i - first_default], defaults_env)
             else:
-                self.raise_py('TypeError')
+                self._bad_call(env)
         for p, d in zip(a.kwonlyargs, a.kw_defaults):
             if p.arg in kw:
                 env.vars[p.arg] = kw.pop(p.arg)
             elif d is not None:
                 env.vars[p.arg] = self.ev(d, defaults_env)
             else:
-                self.raise_py('TypeError')
+                self._bad_call(env)
         if a.kwarg is not None:
             env.vars[a.kwarg.arg] = kw
         elif kw:
-            self.raise_py('TypeError')
+            self._bad_call(env)
+
+    def _bad_call(self, env):
+        if env.module is not None and env.module.name.startswith('contracts') and env.cls is not None:
+            raise ShapeOutOfDate(f'a method of the stub class {env.cls.name} is called with arguments the stub does not model')
+        self.raise_py('TypeError')
 
     def call_function(self, f: FuncInfo, args, kwargs, force_inline=False):
         if f.kind == 'classmethod' and args and isinstance(args[0], SObj):
